@@ -166,3 +166,64 @@ func vxH11WriteFail(maxpend int, second int) {
 	vxAssert(!still, "dropped-connection-unregistered")
 	vxReach("done")
 }
+
+// H11.reuse: a fid number that was clunked while a request on it was still executing and then bound again: the
+// connection holds two fids under one number for a while (the old one only through its request). Whatever the order
+// of the request's return and the hang-up, each of them is reported destroyed exactly once.
+func vxH11Reuse(releaseFirst bool) {
+	kit := vxNewKit(false, false, 8192, true)
+	kit.ops.hook = func(op string, req *SrvReq) { vxYield() }
+	nc := vxNewNetConn()
+	kit.srv.NewConn(nc)
+	vxQuiesce()
+	nc.in <- refEncode(Tversion, NOTAG, []refItem{refU32(8192), refS("9P2000.u")}, true)
+	vxQuiesce()
+	nc.in <- refEncode(Tattach, 1, []refItem{refU32(0), refU32(NOFID), refS("u0"), refS(""), refU32(0)}, true)
+	vxQuiesce()
+	nc.in <- refEncode(Twalk, 1, []refItem{refU32(0), refU32(1), {kind: rkNstr, ss: nil}}, true)
+	vxQuiesce()
+	var victim *Conn
+	for c := range kit.srv.conns {
+		victim = c
+	}
+	vxAssert(victim != nil && victim.fidpool[1] != nil && victim.fidpool[0] != nil, "harness-fids-bound")
+	if victim == nil || victim.fidpool[1] == nil {
+		return
+	}
+	root, old := victim.fidpool[0], victim.fidpool[1]
+	kit.ops.gate = map[uint16]chan bool{20: make(chan bool, 1)}
+	nc.in <- refEncode(Tstat, 20, []refItem{refU32(1)}, true)
+	vxQuiesce()
+	mark := len(nc.writes)
+	nc.in <- refEncode(Tclunk, 21, []refItem{refU32(1)}, true)
+	vxQuiesce()
+	nc.in <- refEncode(Twalk, 22, []refItem{refU32(0), refU32(1), {kind: rkNstr, ss: nil}}, true)
+	vxQuiesce()
+	vxAssert(len(nc.writes) == mark+2 && nc.writes[mark][4] == Rclunk && nc.writes[mark+1][4] == Rwalk, "number-clunked-and-bound-again")
+	if len(nc.writes) != mark+2 || nc.writes[mark+1][4] != Rwalk {
+		return
+	}
+	fresh := victim.fidpool[1]
+	vxAssert(fresh != nil && fresh != old, "harness-new-fid")
+	if releaseFirst {
+		kit.ops.gate[20] <- true
+		vxQuiesce()
+	}
+	nc.hangup()
+	vxQuiesce()
+	if !releaseFirst {
+		kit.ops.gate[20] <- true
+		vxQuiesce()
+	}
+	vxAssert(kit.ops.closed == 1, "connection-reported-closed-exactly-once")
+	for _, f := range []*SrvFid{root, old, fresh} {
+		vxAssert(kit.ops.ndestroyed(f) >= 1, "fid-valid-at-disconnect-reported-destroyed")
+		vxAssert(kit.ops.ndestroyed(f) <= 1, "fid-reported-destroyed-at-most-once")
+	}
+	if vxSymbolic() {
+		vxAssert(vxParkedInLib() == 0, "every-goroutine-of-the-dropped-connection-ended")
+	}
+	_, still := kit.srv.conns[victim]
+	vxAssert(!still, "dropped-connection-unregistered")
+	vxReach("done")
+}
